@@ -127,8 +127,9 @@ var (
 	dialFactorySched *sched.Sched
 )
 
-// Dial runs the real client (ParseArgs + Dial) over conn.
-func Dial(args *pt.Args, conn net.Conn) (net.Conn, error) {
+// clientFactory: the one client factory of the current execution (obfs4proxy
+// creates one per transport for the life of the process).
+func clientFactory() (base.ClientFactory, error) {
 	cf := dialFactory
 	if s := sched.Cur(); cf == nil || s == nil || s != dialFactorySched {
 		var err error
@@ -138,9 +139,37 @@ func Dial(args *pt.Args, conn net.Conn) (net.Conn, error) {
 		}
 		dialFactory, dialFactorySched = cf, s
 	}
+	return cf, nil
+}
+
+// Dial runs the real client (ParseArgs + Dial) over conn.
+func Dial(args *pt.Args, conn net.Conn) (net.Conn, error) {
+	pa, err := ParseArgs(args)
+	if err != nil {
+		return nil, err
+	}
+	return DialParsed(pa, conn)
+}
+
+// ParseArgs and DialParsed are the two halves of Dial, for callers that parse
+// the arguments of several connections before dialling any of them (tor opens
+// several connections at once) or dial one parsed object more than once.
+func ParseArgs(args *pt.Args) (interface{}, error) {
+	cf, err := clientFactory()
+	if err != nil {
+		return nil, err
+	}
 	pa, err := cf.ParseArgs(args)
 	if err != nil {
 		return nil, fmt.Errorf("ParseArgs: %w", err)
+	}
+	return pa, nil
+}
+
+func DialParsed(pa interface{}, conn net.Conn) (net.Conn, error) {
+	cf, err := clientFactory()
+	if err != nil {
+		return nil, err
 	}
 	return cf.Dial("tcp", "192.0.2.1:443", func(string, string) (net.Conn, error) { return conn, nil }, pa)
 }
